@@ -115,6 +115,36 @@ pub fn numeric_forms() -> Vec<String>
 	v
 }
 
+/// Complete quoted literals around every escape form (a closed literal needs four fragments,
+/// more than the fragment sweeps reach): quote x prefix x one or two escapes x suffix.
+pub fn quoted_forms() -> Vec<String>
+{
+	let escapes = [
+		"\\n", "\\r", "\\t", "\\\\", "\\'", "\\\"", "\\0", "\\x41", "\\x7f", "\\x80", "\\xG0", "\\x4", "\\xFF", "\\u{41}", "\\u{20ac}", "\\u{10FFFF}", "\\u{110000}", "\\u{D7FF}",
+		"\\u{D800}", "\\u{DBFF}", "\\u{dfff}", "\\u{E000}", "\\u{}", "\\u{1234567}", "\\u{0000041}", "\\u{00D800}", "\\u41", "\\u{4", "\\q", "\\e", "\\",
+	];
+	let mut v = Vec::new();
+	for quote in ["\"", "'"]
+	{
+		for pre in ["", "a"]
+		{
+			for post in ["", "b"]
+			{
+				for e in escapes
+				{
+					v.push(format!("{quote}{pre}{e}{post}{quote}"));
+					v.push(format!("{quote}{pre}{e}{post}{quote};"));
+					for e2 in ["\\n", "\\x41", "\\u{41}", "\\u{D800}", "\\q"]
+					{
+						v.push(format!("{quote}{pre}{e}{e2}{post}{quote}"));
+					}
+				}
+			}
+		}
+	}
+	v
+}
+
 pub const NUMERIC_SUFFIXES: [&str; 9] = ["", "u8", "i8", "u128", "i128", "usize", "u7", "x", "_u8"];
 pub const NUMERIC_FOLLOWERS: [&str; 6] = ["", " ", ";", "\n1", " a", "."];
 
@@ -194,6 +224,10 @@ pub fn drive(d: &mut Driver)
 	d.bound("numeric boundary forms x suffixes x followers", json!([nforms, NUMERIC_SUFFIXES.len(), NUMERIC_FOLLOWERS.len()]));
 	let jobs: Vec<Value> = (0..nforms).step_by(8).map(|lo| json!({"space": "numeric", "lo": lo, "hi": (lo + 8).min(nforms)})).collect();
 	d.phase("numeric boundary forms", jobs);
+	let nq = quoted_forms().len();
+	d.bound("closed quoted literals around every escape form", json!(nq));
+	let jobs: Vec<Value> = (0..nq).step_by(64).map(|lo| json!({"space": "quoted", "lo": lo, "hi": (lo + 64).min(nq)})).collect();
+	d.phase("quoted literals around every escape form", jobs);
 
 	d.assume("the reference lexer (engine/src/model/reflex.rs) transcribes docs/errors.md E100-E163, docs/syntax.md and the sample files; where they are silent it answers 'unspecified' and only agreement between the two implementations is required");
 	d.assume("strings longer than the bounds, and characters outside the alphabets, are not explored");
@@ -254,6 +288,16 @@ pub fn work(spec: &Value, w: &mut WorkerCtx)
 					judge(text.as_bytes(), w);
 				}
 			}
+		}
+		return;
+	}
+	if space == "quoted"
+	{
+		let forms = quoted_forms();
+		for i in spec["lo"].as_u64().unwrap() as usize..spec["hi"].as_u64().unwrap() as usize
+		{
+			w.result.transitions += 1;
+			judge(forms[i].as_bytes(), w);
 		}
 		return;
 	}
